@@ -271,7 +271,62 @@ def e2e(ck, paths, tier):
         if lb != base:
             ck.violation("e2e:cli-differs-from-library:%s" % w, "kalign --type %s output differs from kalign_run(type=%d) output" % (w, ty), ctx)
 
-    common.pmap(work2, jobs2)
+    # the array entry point kalign(): the penalties the caller passes (0 included) are the ones the run uses, and the result is
+    # the one kalign_run gives for the same sequences (named Seq1.. as kalign_arr_to_msa names them), type and penalties
+    def work4(job):
+        idx, kind, recs, ty, pen = job
+        bt = BT_DNA if kind == "dna" else BT_PROT
+        exp = expected(bt, ty, *pen)
+        if exp is None:
+            return
+        seqs = [s_ for _, s_ in recs]
+        sf = ck.tmp(".seqs")
+        common.write_bytes(sf, "".join(s_ + "\n" for s_ in seqs))
+        f = ck.tmp(".fa")
+        common.write_bytes(f, fmt.write_fasta([("Seq%d" % (i + 1), s_) for i, s_ in enumerate(seqs)]))
+        nt = 1 + (idx % 2) * 3
+        pa = " ".join(common.fnum(v) for v in pen)
+        log = ck.tmp(".log")
+        r, lrecs = common.kvdrv(paths, ["arr %s %d %d %s" % (sf, nt, ty, pa), "read 0 %s" % f, "run 0 %d %d %s" % (nt, ty, pa), "dump 0", "free 0"],
+                                scratch=ck.scratch, verif_log=log)
+        ctx = {"level": "array-entry", "input": recs, "type": ty, "penalties": pen}
+        if ck.proc_violations(r, ctx, allow_rcs=(0,)):
+            return
+        a = next((x for x in lrecs if x.get("op") == "arr"), None)
+        d = next((x for x in lrecs if x.get("op") == "dump"), None)
+        an = argset_name(*pen)
+        ck.evaluated(("arr", idx, ty, pen))
+        ck.count("array_entry_runs")
+        if any(v == 0 for v in pen):
+            ck.count("array_entry_runs_with_an_explicit_zero_penalty")
+        if a is None or a["rc"] != 0 or d is None or d.get("null"):
+            ck.violation("array-entry:rejected-valid:type%d" % ty, "kalign()/kalign_run failed on an input the other entry points accept", ctx)
+            return
+        precs = [x for x in (common.read_jsonl(log) if os.path.exists(log) else []) if x.get("rec") == "param"]
+        if len(precs) == 2:
+            bad = cmp_param(precs[0], exp)
+            if bad:
+                ck.violation("array-entry:param-differs:type%d:args=%s:fields=%s" % (ty, an, ",".join(sorted(set(x.split("[")[0] for x in bad)))),
+                             "kalign(type=%d, gpo=%g, gpe=%g, tgpe=%g) aligned with gpo=%g gpe=%g tgpe=%g; expected %s table with overrides: gpo=%g gpe=%g tgpe=%g" % (
+                                 (ty,) + tuple(pen) + (precs[0]["gpo"], precs[0]["gpe"], precs[0]["tgpe"], exp["table"], exp["gpo"], exp["gpe"], exp["tgpe"])), ctx)
+                return
+        else:
+            ck.note_inconclusive("array-entry: %d param records" % len(precs))
+        if a["rows"] != [x["seq"] for x in d["rows"]]:
+            ck.violation("array-entry:differs-from-kalign_run:args=%s" % an,
+                         "kalign(type=%d, gpo=%g, gpe=%g, tgpe=%g) returns a different alignment than kalign_run with the same arguments on the same sequences" % ((ty,) + tuple(pen)), ctx)
+
+    jobs4 = []
+    for idx, (kind, recs) in enumerate(inputs):
+        tys = [T_DNA, T_UNDEF] if kind == "dna" else [T_PROT, T_DIV, T_UNDEF]
+        for ty in tys:
+            pens = [(-1.0, -1.0, -1.0), (0.0, -1.0, -1.0), (-1.0, 0.0, -1.0), (-1.0, -1.0, 0.0), (0.0, 0.0, 0.0)]
+            pens += [tuple(ck.rng.choice([-1.0, 0.0, 0.5, 3.0, 55.0]) for _ in range(3)) for _ in range(2)]
+            if tier == "quick" and idx >= 3:
+                pens = [ck.rng.choice(pens[1:5]), pens[-1]]
+            for pen in pens:
+                jobs4.append((idx, kind, recs, ty, pen))
+    common.pmap(work4, jobs4)
     ck.sample({"e2e_example": {"args": ["--type", "dna", "--gpe", "3"], "expected": {"gpo": 8, "gpe": 3, "tgpe": 0, "matrix": "5/-4"}}})
 
 
@@ -281,7 +336,8 @@ def run(ck, tier):
     e2e(ck, paths, tier)
     ck.rule = ("unit: every (kind, type constant, subset of {gpo,gpe,tgpe}, override value) of the grid through aln_param_init, compared with golden "
                "tables (ref/golden_params.json) overridden exactly by the arguments >= 0; end to end: CLI runs per --type word and option subset with the "
-               "parameters actually used read from the kv_param hook record, explicit-default vs default output bytes, CLI vs library output bytes. "
+               "parameters actually used read from the kv_param hook record, explicit-default vs default output bytes, CLI vs library output bytes; the array entry point kalign() with explicit (also zero) "
+               "penalties: parameters used (hook record) and result equal to kalign_run's. "
                "Distinct = distinct (kind,type,args) tuples / (input,word,args) tuples.")
     ck.assumptions = ["golden tables were transcribed from the shipped aln_param.c and README (dna 5/-4, 8/6/0; internal 8/6/8)",
                       "an unspecified type on nucleotide input uses the RNA table (as shipped)"]
